@@ -822,8 +822,18 @@ class Inliner:
                     for z in ast.walk(a_)):
           method_lookups.add(id(x.func))
 
+      def _pure_builtin_call(x):
+        # type(v) / len(v) / isinstance(v, T) on plain names: no effect, and
+        # nothing the helper could change (it cannot rebind the caller's names)
+        return isinstance(x, ast.Call) and isinstance(
+            x.func, ast.Name) and x.func.id in ('type', 'id', 'isinstance') and (
+                x.func.id not in own) and not x.keywords and all(
+                    isinstance(a_, (ast.Name, ast.Constant)) or _module_attr(a_)
+                    for a_ in x.args)
+
       first = not any(
           isinstance(x, (ast.Call, ast.Attribute, ast.Subscript, ast.Await)) and
+          not _pure_builtin_call(x) and
           not (isinstance(x, ast.Attribute) and (
               _module_attr(x) or id(x) in method_lookups)) and
           (getattr(x, 'lineno', 0), getattr(x, 'col_offset', 0)) < (
